@@ -729,6 +729,7 @@ pub fn main_c05(a: Args) -> i32 {
         };
         // engine 1: CopiaSync (verify on), this build profile
         let case = |cid: usize, chk: bool| format!("{} {} 1 {} {} {} {} {} {}", cid, if chk { 1 } else { 0 }, hex(&h.basis), h.delta.block_size, h.delta.source_size, h.delta.basis_size, ops_string(&h.delta.ops), pre);
+        out.inflight(&case(id, checked));
         let hb = h.basis.clone();
         let hd = h.delta.clone();
         let res = catch(move || {
@@ -759,6 +760,7 @@ pub fn main_c05(a: Args) -> i32 {
         }
         id += 1;
         // engine 2: AsyncCopiaSync (no debug asserts): modelled as checked=false
+        out.inflight(&case(id, false));
         let hb2 = h.basis.clone();
         let res2 = catch(std::panic::AssertUnwindSafe(|| {
             let mut o = Cursor::new(Vec::new());
@@ -784,6 +786,7 @@ pub fn main_c05(a: Args) -> i32 {
             out.line("specfail.txt", &format!("{} C05 async engine panicked", id));
         }
         id += 1;
+        out.landed();
         // engine 3: `copia patch` on files (shipped profile only)
         if let Some(c) = &copia {
             if !checked && ((id / 2) % (if a.tier == "thorough" { 5 } else { 12 }) == 0 || a.replay.is_some()) {
